@@ -8,7 +8,27 @@ pub struct Shape {
     pub ret:   Option<VT>,
     /// import env.h0 ()->() and env.h1 (i32)->i32 and env.h2 (i32,i64)->i64
     pub hosts: bool,
+    /// index into the layouts of additional locals of `f` and `g` (0: none), see `extra_locals`
+    pub extra: u8,
 }
+
+/// Layouts of declared locals beyond the ones the alphabets refer to: (appended to f's
+/// `i32 i64`, appended to g's `i32`). The binary format declares locals in runs of equal
+/// type, so these give functions whose number of runs differs from their number of locals,
+/// around the multiples of 16 the V1 schedule charges by.
+pub fn extra_locals(extra: u8) -> (Vec<VT>, Vec<VT>) {
+    match extra {
+        0 => (vec![], vec![]),
+        1 => (vec![VT::I64], vec![VT::I32]),
+        2 => (vec![VT::I64; 13], vec![VT::I32; 14]),
+        3 => (vec![VT::I64; 14], vec![VT::I32; 15]),
+        4 => (vec![VT::I64; 15], vec![VT::I32; 16]),
+        5 => (vec![VT::I32; 30], vec![VT::I64; 31]),
+        6 => ((0..16).map(|i| if i % 2 == 0 { VT::I32 } else { VT::I64 }).collect(), (0..17).map(|i| if i % 2 == 0 { VT::I64 } else { VT::I32 }).collect()),
+        _ => (vec![VT::I64; 200], vec![VT::I32; 100]),
+    }
+}
+pub const N_EXTRA: u8 = 7;
 
 impl Shape {
     pub fn nimports(&self) -> u32 {
@@ -30,7 +50,7 @@ impl Shape {
     pub fn w1(&self) -> u32 { self.nimports() + 4 }
 
     pub fn name(&self) -> String {
-        format!("ret={}{}", self.ret.map(|v| v.name()).unwrap_or("()"), if self.hosts { "+hosts" } else { "" })
+        format!("ret={}{}{}", self.ret.map(|v| v.name()).unwrap_or("()"), if self.hosts { "+hosts" } else { "" }, if self.extra != 0 { format!("+locals{}", self.extra) } else { String::new() })
     }
 }
 
@@ -63,10 +83,11 @@ pub fn template(body: &[Instr], shape: Shape, force_memory: bool) -> Module {
             Import { module: "env".into(), name: "h2".into(), ty: T_H2 },
         ];
     }
-    let f = Func { ty: T_F, locals: vec![VT::I32, VT::I64], body: body.to_vec() };
+    let (fx, gx) = extra_locals(shape.extra);
+    let f = Func { ty: T_F, locals: [vec![VT::I32, VT::I64], fx].concat(), body: body.to_vec() };
     let g = Func {
         ty:     T_G,
-        locals: vec![VT::I32],
+        locals: [vec![VT::I32], gx].concat(),
         body:   vec![Instr::LocalGet(0), Instr::LocalTee(1), Instr::I32Const(1), Instr::Num(0x6A)],
     };
     let h = Func {
